@@ -74,6 +74,7 @@ type mgAttempt struct {
 	end    byte   // R: ! . ~
 	injAct byte   // 0 | k | x
 	injAt  int    // mgAtMeta | mgAtDial | mgAtBackoff | j >= 0
+	injCb  bool   // `c<j>`: Reconnect is called from inside the Update callback of message j
 	readd  bool
 }
 
@@ -122,9 +123,20 @@ func mgParseAttempt(tok string) (a mgAttempt, err error) {
 		case "b":
 			a.injAt = mgAtBackoff
 		default:
+			if strings.HasPrefix(w, "c") {
+				// from inside the Update callback of message j (the monitor goroutine is not in Recv)
+				w = w[1:]
+				a.injCb = true
+				if a.injAct != 'k' {
+					return a, errors.New("c needs k")
+				}
+			}
 			j, e := strconv.Atoi(w)
 			if e != nil || j < 0 {
 				return a, errors.New("bad injection point")
+			}
+			if a.injCb && (a.kind != 'R' || j >= len(a.msgs) || a.msgs[j] != 'u') {
+				return a, errors.New("c<j> needs an update at j")
 			}
 			a.injAt = j
 		}
@@ -190,6 +202,8 @@ type mgEnv struct {
 	att            int // attempts started so far (incremented by Lookup)
 	segUS          int // update/sync callbacks since the current attempt started
 	segC           bool
+	streamIdx      int          // attempt whose stream the scripted server is serving
+	cbFired        map[int]bool // attempts whose in-callback injection was made
 	removeIssued   bool
 	removeCalledAt int // len(events) when Remove was called, -1 before
 	removed        bool
@@ -445,8 +459,17 @@ func (sc *mgScenario) Subscribe(stream gpb.GNMI_SubscribeServer) error {
 		<-ctx.Done()
 		return ctx.Err()
 	}
+	e.mu.Lock()
+	e.streamIdx = idx
+	e.mu.Unlock()
 	for j := 0; j <= len(a.msgs); j++ {
-		if a.injAct != 0 && a.injAt == j {
+		if a.injCb {
+			if j == a.injAt+1 {
+				// the callback of message j-1 calls Reconnect: the stream ends by cancellation
+				<-ctx.Done()
+				return ctx.Err()
+			}
+		} else if a.injAct != 0 && a.injAt == j {
 			e.waitProcessed(a.msgs, j)
 			e.inject(ctx, a)
 			<-ctx.Done()
@@ -638,6 +661,19 @@ func mgNewScenario(specs []mgTargetSpec) (*mgScenario, error) {
 		Update: func(name string, n *gpb.Notification) {
 			if e := sc.envs[name]; e != nil {
 				e.record("U" + strconv.FormatInt(n.GetTimestamp(), 10))
+				e.mu.Lock()
+				a, ok := e.attempt(e.streamIdx)
+				fire := ok && a.injCb && !e.cbFired[e.streamIdx] && int64(a.injAt) == n.GetTimestamp()
+				if fire {
+					if e.cbFired == nil {
+						e.cbFired = map[int]bool{}
+					}
+					e.cbFired[e.streamIdx] = true
+				}
+				e.mu.Unlock()
+				if fire {
+					e.addRet(sc.m.Reconnect(name))
+				}
 			}
 		},
 	})
@@ -827,6 +863,9 @@ func mgAttemptString(a mgAttempt) string {
 		case mgAtBackoff:
 			s += "b"
 		default:
+			if a.injCb {
+				s += "c"
+			}
 			s += strconv.Itoa(a.injAt)
 		}
 		if a.readd {
@@ -900,6 +939,16 @@ func mgGenTarget(r *rand.Rand) string {
 			a.injAt = places[r.Intn(len(places))]
 			if !mustInject && r.Intn(100) < 12 {
 				a.injAt = mgAtBackoff
+			}
+			if a.kind == 'R' && strings.Contains(a.msgs, "u") && r.Intn(100) < 25 {
+				// Reconnect from inside an Update callback (also with a receive timeout configured)
+				var us []int
+				for j, c := range a.msgs {
+					if c == 'u' {
+						us = append(us, j)
+					}
+				}
+				a.injAct, a.injCb, a.injAt, a.readd = 'k', true, us[r.Intn(len(us))], false
 			}
 			if a.injAct == 'x' && r.Intn(100) < 20 && i < n-1 {
 				a.readd = true
